@@ -108,3 +108,13 @@ From DV.proofs Require Import ClassFacts CF_C01.
 Theorem C01_every_mask_path_resamples_with_nearest : forallb mask_interp_ok class_table = true.
 Proof. exact mask_paths_nearest. Qed.
 Print Assumptions C01_every_mask_path_resamples_with_nearest.
+
+(* every named parameter of a target path (apply, apply_to_mask, apply_to_bbox, apply_to_keypoint, ...) of every
+   transform class is one the class's parameter methods put into the shared parameter dictionary, so no mask path can
+   silently fall back to a default plane / offset / factor while the image follows the drawn one; the one formal
+   that is never supplied, RandomSizedCrop's d_start, is unsupplied for every target alike (regenerated table) *)
+From DV.gen Require Import Gen_classtab.
+From DV.proofs Require Import ClassFacts CF_C01.
+Theorem C01_every_parameter_a_target_path_names_is_supplied : forallb param_row_ok param_table = true.
+Proof. exact target_path_parameters_are_supplied. Qed.
+Print Assumptions C01_every_parameter_a_target_path_names_is_supplied.
